@@ -317,7 +317,15 @@ def corpus(ctx):
         dict(base, inc=False, steps=[[("S", 0, [1], 1, []), ("S", 0, [1], 0, [(2, 0), (3, 0)]), ("S", 0, [1], I32, [(2, 2), (3, 2)]), ("S", 1, [], -5, [(2, 3)])]]),     # D5/D6 (fixed)
         dict(base, inc=True, steps=[[("M", 0, []), ("P", []), ("A", []), ("R", 1, [], []), ("R", 0, [], [])], [("R", 0, [1], [])]]),                                      # D5 (fixed)
         dict(base, inc=False, steps=[[("N", "a", 1), ("N", "b", 1), ("R", 1, [1], [])]]),                                                                                  # D8 (known): two names
+        wide_atom(10050), wide_atom(300),
     ]
+
+def wide_atom(n):
+    """one flat theory atom whose element lists the same unary operator term n times (nesting depth 2, any width must render)"""
+    ws = ["TN,0,1", "TS,1,%s" % hexs(b"-"), "TC,2,1,%s" % progs.lst([0]), "TS,3,%s" % hexs(b"p"), "TE,0,%s,%s" % (progs.lst([2] * n), progs.lst([])), "TA,0,3,%s" % progs.lst([0])]
+    terms = {"0": ("num", 1), "1": ("sym", "-"), "2": ("comp", 1, [0]), "3": ("sym", "p")}
+    return {"inc": False, "steps": [[("T0", ws, (3, [([2] * n, [])], None))]], "terms": terms}
+
 
 def generate(ctx):
     n = {"quick": 4000, "thorough": 100000}[ctx.tier]
